@@ -305,8 +305,10 @@ Inductive c10_scen :=
 | ScWrite (out : nat) (chunks : list (list N))                    (* qpdf [--linearize|--qdf] in out *)
 | ScSplit (outs : list (nat * list (list N)))                     (* --split-pages: one Writer per file *)
 | ScJson (main : nat) (items : list c10_jitem)                     (* --json-output --json-stream-data=file *)
-| ScStdout (items : list c10_oitem) (nfinish ntie : nat)          (* qpdf in - ; --show-attachment; JSON to stdout;
-                                                                     ntie: cerr insertions of the closing messages *)
+| ScStdout (items : list c10_oitem) (nfinish ntie : nat) (swallow : bool)
+    (* qpdf in - ; --show-attachment; JSON to stdout. ntie: cerr insertions of the closing messages.
+       swallow: the data is piped by QPDF::pipeStreamData (--show-attachment), whose catch (std::exception&)
+       turns an exception of the SINK into a warning about the input file and carries on *)
 | ScReplace (inp backup temp : nat) (chunks : list (list N)).     (* --replace-input *)
 
 Fixpoint c10_split (en : c10_env) (outs : list (nat * list (list N))) (w : c10_world) : c10_res unit :=
@@ -329,17 +331,22 @@ Definition c10_replace (en : c10_env) (warn : bool) (inp backup temp : nat) (chu
     c10_bind (c10_unlink en backup w3) (fun ok3 w4 =>
       ROk tt (if ok3 then w4 else c10_say w4 DgUnlink))))).
 
-Definition c10_job (en : c10_env) (warn : bool) (sc : c10_scen) (w : c10_world) : c10_res unit :=
+(* the boolean result: the job raised a warning of its own *)
+Definition c10_no_warning (r : c10_res unit) : c10_res bool := c10_bind r (fun _ w => ROk false w).
+Definition c10_job (en : c10_env) (warn : bool) (sc : c10_scen) (w : c10_world) : c10_res bool :=
   match sc with
-  | ScWrite out chunks => c10_writer_file en out chunks w
-  | ScSplit outs => c10_split en outs w
-  | ScJson main items => c10_json_file en main items w
-  | ScStdout items nfin _ =>
-    c10_bind (c10_os_items en items w) (fun _ w1 => c10_os_finish_n nfin en w1)
-  | ScReplace inp backup temp chunks => c10_replace en warn inp backup temp chunks w
+  | ScWrite out chunks => c10_no_warning (c10_writer_file en out chunks w)
+  | ScSplit outs => c10_no_warning (c10_split en outs w)
+  | ScJson main items => c10_no_warning (c10_json_file en main items w)
+  | ScStdout items nfin _ swallow =>
+    match c10_bind (c10_os_items en items w) (fun _ w1 => c10_os_finish_n nfin en w1) with
+    | RExc e w' => if swallow then ROk true w' else RExc e w'
+    | r => c10_no_warning r
+    end
+  | ScReplace inp backup temp chunks => c10_no_warning (c10_replace en warn inp backup temp chunks w)
   end.
 
-Definition c10_uses_stdout (sc : c10_scen) := match sc with ScStdout _ _ _ => true | _ => false end.
+Definition c10_uses_stdout (sc : c10_scen) := match sc with ScStdout _ _ _ _ => true | _ => false end.
 
 (* ---- realmain + process exit *)
 Record c10_result := mk_result {
@@ -361,7 +368,9 @@ Fixpoint c10_exit_rounds (n : nat) (en : c10_env) (wbad : bool) (w : c10_world) 
   end.
 Definition c10_process_exit (en : c10_env) (sc : c10_scen) (code : nat) (w : c10_world) : c10_result :=
   if c10_uses_stdout sc then
-    match c10_exit_rounds (en_exit_rounds en) en false w with
+    (* QPDFLogger::Members::~Members (the default logger is a static): p_stdout->finish() then p_stderr->finish(),
+       i.e. cout.flush() and cerr.flush(), whose sentry flushes the tied cout again; nobody to report to *)
+    match c10_bind (c10_os_tie_n 2 en w) (fun _ w0 => c10_exit_rounds (en_exit_rounds en) en false w0) with
     | ROk _ w1 => mk_result (Some code) (c10_exit_flush_all w1)
     | RExc _ w1 => mk_result (Some code) (c10_exit_flush_all w1)
     | RDead w1 => mk_result None w1
@@ -377,23 +386,26 @@ Definition c10_main_stdout_check (en : c10_env) (sc : c10_scen) (w : c10_world) 
 
 Definition c10_initial (en : c10_env) (sc : c10_scen) (orig : list N) : c10_world :=
   let d0 := match sc with
-            | ScStdout _ _ _ => [(c10_stdout, sio_new (en_initcap en) true)]
+            | ScStdout _ _ _ _ => [(c10_stdout, sio_new (en_initcap en) true)]
             | ScReplace inp _ _ _ => [(inp, sio_static orig)]
             | _ => []
             end in
   mk_world d0 0 [] [] false.
 
-Definition c10_closing_ties (sc : c10_scen) : nat := match sc with ScStdout _ _ n => n | _ => 0 end.
+Definition c10_closing_ties (sc : c10_scen) : nat := match sc with ScStdout _ _ n _ => n | _ => 0 end.
 (* realmain's catch: std::cerr << whoami << ": " << e.what() << '\n' : four insertions *)
-Definition c10_catch_ties (sc : c10_scen) : nat := match sc with ScStdout _ _ _ => 4 | _ => 0 end.
+Definition c10_catch_ties (sc : c10_scen) : nat := match sc with ScStdout _ _ _ _ => 4 | _ => 0 end.
 
 (* QPDFJob::run + writeQPDF's warning message + getExitCode, under realmain's catch *)
 Definition c10_run (en : c10_env) (warn warn_exit0 : bool) (sc : c10_scen) (orig : list N) : c10_result :=
   let w0 := c10_initial en sc orig in
-  match c10_bind (c10_job en warn sc w0) (fun _ w1 =>
-        c10_bind (c10_os_tie_n (c10_closing_ties sc) en (if warn then c10_say w1 DgWarn else w1)) (fun _ w2 =>
-          c10_main_stdout_check en sc w2)) with
-  | ROk _ w => c10_process_exit en sc (if warn && negb warn_exit0 then 3 else 0) w
+  match c10_bind (c10_job en warn sc w0) (fun extra w1 =>
+        let wn := warn || extra in
+        (* a warning raised by the job itself prints more (the WARNING line, the closing message); with
+           swallow that only happens when cout is already bad, so no further flush is attempted *)
+        c10_bind (c10_os_tie_n (c10_closing_ties sc) en (if wn then c10_say w1 DgWarn else w1)) (fun _ w2 =>
+        c10_bind (c10_main_stdout_check en sc w2) (fun _ w3 => ROk wn w3))) with
+  | ROk wn w => c10_process_exit en sc (if wn && negb warn_exit0 then 3 else 0) w
   | RExc e w =>
     match c10_os_tie_n (c10_catch_ties sc) en (c10_say w e) with
     | ROk _ w' => c10_process_exit en sc 2 w'
